@@ -296,6 +296,44 @@ def run(ctx):
                         % (old, v, missing), where=up.loc(ln))
     ctx.floor("R8", n8, 4, "state promotions in AggregateState::update")
 
+    # ---- R9 duplicate detection keys on the values: every set that DISTINCT processing uses to remember what it has seen
+    # (operator fields, the parallel merge, the DISTINCT aggregate states) is keyed by HashableValue - directly or
+    # through a key struct made of them. A key made of hashes, or of a smaller encoding of the value, merges different
+    # values (float bits with an integer, NULL with false, any two lists).
+    def key_ok(ty, depth=0):
+        if "HashableValue" in ty:
+            return True
+        if depth > 2:
+            return False
+        m = re.search(r"HashSet<([^,>]+(?:<[^>]*>)?)", ty)
+        inner = m.group(1).strip() if m else ty
+        a = P.adts.get(inner) or next((x for i, x in P.adts.items() if i.endswith("::" + inner.split("::")[-1]) and inner.split("::")[-1] in ("RowKey",) and i.startswith(inner.rsplit("::", 1)[0])), None)
+        if a:
+            return all(key_ok(ff[1], depth + 1) for v in a["variants"] for ff in v["fields"]) and bool(a["variants"])
+        return False
+    n9 = 0
+    for aid, a in sorted(P.adts.items()):
+        if not aid.startswith("grafeo_core::execution::") or "Distinct" not in aid.split("::")[-1]:
+            continue
+        for v in a["variants"]:
+            for ff in v["fields"]:
+                if "HashSet<" in ff[1]:
+                    n9 += 1
+                    ctx.ob("R9", "%s.%s#keyed-by-value" % (aid.split("::")[-1], ff[0]), key_ok(ff[1]),
+                           what="%s.%s remembers seen rows as %s, which is not made of HashableValue: different values that share "
+                                "the encoding / hash are treated as duplicates" % (aid.split("::")[-1], ff[0], ff[1]), where=a["file"])
+    for f in sorted(P.fns.values(), key=lambda f: f.id):
+        if f.id.startswith("grafeo_core::execution::") and "distinct" in f.id.split("::")[-1].lower() and "::tests::" not in f.id and f.kind != "closure":
+            for l in range(len(f.locals)):
+                ty = f.local_ty(l)
+                if ty.startswith(("std::collections::HashSet<", "hashbrown::HashSet<", "std::collections::hash::set::HashSet<")):
+                    n9 += 1
+                    ctx.ob("R9", "%s#local-set-keyed-by-value" % short_id(f.id), key_ok(ty),
+                           what="%s deduplicates with a %s: rows whose hashes / encodings coincide are dropped as duplicates" % (short_id(f.id), ty),
+                           where=f.loc())
+                    break
+    ctx.floor("R9", n9, 4, "seen-sets of DISTINCT processing")
+
     # ---- R7 JSON for the C binding: value_to_json writes each Value variant as a JSON shape from which json_to_value can
     # build that variant again (the reader's table, per JSON shape, contains the variant the writer used that shape for)
     JS = ["Null", "Bool", "Number", "String", "Array", "Object"]
